@@ -49,6 +49,8 @@ impl OffSpec {
 pub enum SelSpec {
     Text { res: u16, off: OffSpec },
     Ann { ann: u16, off: Option<OffSpec> },
+    /// the live annotation `plus` positions after the k-th live one (runs of consecutive annotations)
+    AnnAt { base: u16, plus: u8, off: Option<OffSpec> },
     Res { res: u16 },
     Set { set: u16 },
     Key { set: u16, key: u16 },
@@ -242,6 +244,19 @@ fn simple_selspec() -> BoxedStrategy<SelSpec> {
     .boxed()
 }
 
+fn ann_off_choice() -> BoxedStrategy<Option<OffSpec>> {
+    prop_oneof![
+        3 => Just(None),
+        4 => Just(Some(OffSpec { b: 0, e: u16::MAX, b_end: false, e_end: true })),
+        1 => Just(Some(OffSpec { b: 0, e: u16::MAX, b_end: false, e_end: false })),
+        1 => Just(Some(OffSpec { b: 0, e: u16::MAX, b_end: true, e_end: true })),
+        2 => any::<u16>().prop_map(|e| Some(OffSpec { b: 0, e, b_end: false, e_end: false })),
+        1 => any::<u16>().prop_map(|b| Some(OffSpec { b, e: u16::MAX, b_end: false, e_end: true })),
+        1 => offspec_strategy().prop_map(Some),
+    ]
+    .boxed()
+}
+
 /// sub-selector lists biased towards the shapes that trigger internal range compression:
 /// runs of text selectors on one resource, runs of annotation selectors
 fn subselectors() -> BoxedStrategy<Vec<SelSpec>> {
@@ -250,13 +265,12 @@ fn subselectors() -> BoxedStrategy<Vec<SelSpec>> {
         3 => (idx(), proptest::collection::vec(offspec_strategy(), 2..=5)).prop_map(|(res, offs)| {
             offs.into_iter().map(|off| SelSpec::Text { res, off }).collect()
         }),
-        2 => (any::<u16>(), 2usize..=4, any::<bool>()).prop_map(|(start, n, whole)| {
-            // consecutive annotations (by live index), with or without whole-text offsets
-            (0..n)
-                .map(|i| SelSpec::Ann {
-                    ann: start.saturating_add((i as u16).saturating_mul(1)),
-                    off: if whole { Some(OffSpec { b: 0, e: u16::MAX, b_end: false, e_end: true }) } else { None },
-                })
+        4 => (any::<u16>(), proptest::collection::vec(ann_off_choice(), 2..=4)).prop_map(|(base, offs)| {
+            // a run of consecutive live annotations, each with its own kind of offset: none, whole text (in either
+            // alignment), a prefix, a suffix, or arbitrary - the shapes that decide whether the run is range-compressed
+            offs.into_iter()
+                .enumerate()
+                .map(|(i, off)| SelSpec::AnnAt { base, plus: i as u8, off })
                 .collect()
         }),
         1 => (simple_selspec(), 2usize..=3).prop_map(|(s, n)| vec![s; n]),
@@ -502,12 +516,16 @@ impl Machine {
                     },
                 ))
             }
-            SelSpec::Ann { ann, off } => {
+            SelSpec::Ann { .. } | SelSpec::AnnAt { .. } => {
                 let live = m.live_anns();
                 if live.is_empty() {
                     return None;
                 }
-                let a = live[pick(*ann, live.len())];
+                let (a, off) = match spec {
+                    SelSpec::Ann { ann, off } => (live[pick(*ann, live.len())], off),
+                    SelSpec::AnnAt { base, plus, off } => (live[(pick(*base, live.len()) + *plus as usize) % live.len()], off),
+                    _ => unreachable!(),
+                };
                 match (off, m.single_text(a)) {
                     (Some(off), Some((r, pb, pe))) => {
                         let len = pe - pb;
